@@ -286,7 +286,11 @@ func genProgram(t *rapid.T, maxStmts int) *program {
 	p := &program{Image: map[uint16]uint8{}, Tags: map[string]bool{}}
 	L := &p.L
 	L.Kind = rapid.SampledFrom([]int{0, 0, 0, 1, 2}).Draw(t, "layout")
-	L.Org, L.Main, L.Data, L.Stack, L.HMask, L.HNMI = 0x0100, 0x0100, 0x4000, 0x8000, 0x2000, 0x0066
+	// the maskable handler sits at an address whose two bytes are equal, so that the IM 2 table can hold
+	// one byte value throughout: every vector byte, odd or even, with or without the project's masking of
+	// its least significant bit, then dispatches to the handler (C06 restricts itself to even vectors,
+	// C07 presupposes that the handler is reached)
+	L.Org, L.Main, L.Data, L.Stack, L.HMask, L.HNMI = 0x0100, 0x0100, 0x4000, 0x8000, 0x2020, 0x0066
 	L.IPage = uint8(rapid.IntRange(0x50, 0x7E).Draw(t, "ipage"))
 	L.Cnt = 0x3000
 	p.IFF = rapid.Bool().Draw(t, "iff")
@@ -386,10 +390,10 @@ func genProgram(t *rapid.T, maxStmts int) *program {
 		}
 		put(uint16(rp*8), []uint8{0xC3, uint8(L.HMask), uint8(L.HMask >> 8)})
 	}
-	// IM2 table
-	tbl := make([]uint8, 256)
-	for i := 0; i < 256; i += 2 {
-		tbl[i], tbl[i+1] = uint8(L.HMask), uint8(L.HMask>>8)
+	// IM2 table: 257 equal bytes (vector 0xFF unmasked reads the first byte of the next page)
+	tbl := make([]uint8, 257)
+	for i := range tbl {
+		tbl[i] = uint8(L.HMask)
 	}
 	put(uint16(L.IPage)<<8, tbl)
 	p.Seed = rapid.Uint64().Draw(t, "progseed")
